@@ -113,6 +113,9 @@ uper_put_nsnnwn(asn_per_outp_t *po, int n) {
 		bytes = 3;
 	else
 		return -1;	/* This is not a "normally small" value */
+	/* #11.6.2: a single bit 1, then a semi-constrained whole number */
+	if(per_put_few_bits(po, 1, 1))
+		return -1;
 	if(per_put_few_bits(po, bytes, 8))
 		return -1;
 
